@@ -376,9 +376,9 @@ NOT_APPLICABLE[:] = [e for e in NOT_APPLICABLE if e["property_id"] not in CHECKS
 CHECKS["C12"] = {
     "test": "TestC12",
     "race": True,
-    "quick": {"shards": 8, "checks": 200, "timeout": 1500},
-    "thorough": {"shards": 16, "checks": 6000, "timeout": 7200},
-    "rule": "built with -race (GORACE halt_on_error). A rapid-generated writer script (block / undo / Verify(remember) / re-read of its own serialization; 1 script in 12 contains one block adding 1100-3200 leaves, after which queries name hundreds of hashes; for a partial forest also "
+    "quick": {"shards": 8, "checks": 200, "timeout": 1500, "hang": 200},
+    "thorough": {"shards": 16, "checks": 4000, "timeout": 7200, "hang": 300},
+    "rule": "built with -race (GORACE halt_on_error). A rapid-generated writer script (block / undo / Verify(remember) / re-read of its own serialization; 1 script in 12 contains one block adding 1100-1700 leaves, after which queries name hundreds of hashes; for a partial forest also "
             "Prune and Ingest) on a full or partial MapPollard with generated TotalRows, and a query set holding every reader method at least once (GetRoots, GetStump, Prove x2, "
             "Verify(remember=false), GetLeafPosition x2, GetLeafHashPositions, GetHash x2 (1-6 positions), GetMissingPositions, GetNumLeaves, GetTreeRows, Write (parsed), "
             "VerifyPartialProof(remember=false)) with arguments resolved in a drawn between-steps state. Expected answers: a sequential replica run of the same script answers "
@@ -391,7 +391,7 @@ CHECKS["C12"] = {
             "operations than queries.",
     "assumptions": COMMON_ASSUME + ["the oracle is differential (sequential vs concurrent run of the real code); whether the sequential answers are right is C01/C02/C09/C10's business",
                                     "interleavings inside a single map operation are only visible to the race detector; schedules are sampled at hook-site and Go-scheduler granularity",
-                                    "a 60 s stall without goroutines parked on the RWMutex is reported as inconclusive (exit 2), not as a violation"],
+                                    "a stall is declared only when no hook site was passed, no query and no writer step finished for 60 s (never because a case merely takes long); without goroutines parked on the RWMutex it is reported as inconclusive (exit 2), not as a violation"],
     "may_stop_early": False,
 }
 MANIFEST_TEXT["C12"] = {
